@@ -16,6 +16,14 @@ int16 = typing.NewType("int16", int)
 int32 = typing.NewType("int32", int)
 
 
+def describe_int(value):
+    # str() of an integer with more than a few thousand digits raises
+    # ValueError on modern Python, so huge values are described, not printed
+    if abs(value) < 10 ** 40:
+        return str(value)
+    return f"a {value.bit_length()}-bit number"
+
+
 def get_as_int(state, what, token, arg_token, bitness, unsigned, default=None):
     value = wait(arg_token.resolve(state))
 
@@ -30,7 +38,7 @@ def get_as_int(state, what, token, arg_token, bitness, unsigned, default=None):
     if unsigned and value < 0:
         reports.error(
             "value-out-of-bounds",
-            (arg_token.ctx_start, arg_token.ctx_end, f"An unsigned integer is expected as {what}, but {value} was passed")
+            (arg_token.ctx_start, arg_token.ctx_end, f"An unsigned integer is expected as {what}, but {describe_int(value)} was passed")
         )
         if default is None:
             raise reports.RecoverableError("A negative value was passed when an unsigned value was expected")
@@ -43,7 +51,7 @@ def get_as_int(state, what, token, arg_token, bitness, unsigned, default=None):
     if value <= -2 ** bitness:
         reports.error(
             "value-out-of-bounds",
-            (arg_token.ctx_start, arg_token.ctx_end, f"The value is too small: {what} {value} does not fit in {bitness} bits")
+            (arg_token.ctx_start, arg_token.ctx_end, f"The value is too small: {what} {describe_int(value)} does not fit in {bitness} bits")
         )
         if default is None:
             raise reports.RecoverableError("Too negative value")
@@ -53,7 +61,7 @@ def get_as_int(state, what, token, arg_token, bitness, unsigned, default=None):
     if value >= 2 ** bitness:
         reports.error(
             "value-out-of-bounds",
-            (arg_token.ctx_start, arg_token.ctx_end, f"The value is too large: {what} {value} does not fit in {bitness} bits")
+            (arg_token.ctx_start, arg_token.ctx_end, f"The value is too large: {what} {describe_int(value)} does not fit in {bitness} bits")
         )
         if default is None:
             raise reports.RecoverableError("Too large value")
